@@ -1,5 +1,6 @@
 (* C19 -- Element.prune on the heap refines prune_t on the reference *)
 From SV Require Import Lib.Base C19.Model C19.Rel C19.ForestFacts.
+From Coq Require Import Permutation.
 
 (* ------------------------------------------------------------------ *)
 (* lists: deleting by index, one element after the other               *)
@@ -115,6 +116,72 @@ Qed.
 Lemma flen_roots f : length (roots f) = flen f.
 Proof. induction f as [|t f IH]; cbn; [reflexivity|now rewrite IH]. Qed.
 
+Lemma pruned_f_F1 t f :
+  pruned_f (F1 t f) =
+  fapp (pruned_t t) (if tree_empty_all (prune_t t) then F1 (prune_t t) (pruned_f f) else pruned_f f).
+Proof. reflexivity. Qed.
+
+Lemma dropped_nodup f : NoDup (roots f) -> NoDup (dropped f).
+Proof.
+  induction f as [|t f IH]; cbn [dropped roots]; intros H; [constructor|].
+  inversion H; subst. destruct (tree_empty_all (prune_t t)); [|now apply IH].
+  constructor; [|now apply IH]. intros Hi. apply H2. now apply dropped_incl.
+Qed.
+
+Lemma dropped_not_kept f : NoDup (ids_f f) -> forall y, In y (dropped f) -> ~ In y (ids_f (prune_f f)).
+Proof.
+  induction f as [|t f IH]; intros Hnd y Hy; [contradiction|].
+  cbn [ids_f] in Hnd. apply nodup_app in Hnd. destruct Hnd as [Ha [Hb Hc]].
+  rewrite prune_f_F1. cbn [dropped] in Hy. destruct (tree_empty_all (prune_t t)).
+  - destruct Hy as [<-|Hy]; [|now apply IH].
+    intros Hi. eapply Hc; [apply rid_in|apply prune_incl_f; eassumption].
+  - cbn [ids_f]. intros Hi. apply in_app_or in Hi. destruct Hi as [Hi|Hi].
+    + eapply Hc; [apply prune_incl_t; eassumption|]. apply roots_incl. now apply dropped_incl.
+    + revert Hi. now apply IH.
+Qed.
+
+Lemma ids_f_F1 t f : ids_f (F1 t f) = ids_t t ++ ids_f f.
+Proof. reflexivity. Qed.
+
+(* nothing is lost: kept ids and pruned-away ids together are the old ids *)
+Lemma prune_perm_m :
+  (forall t, Permutation (ids_t (prune_t t) ++ ids_f (pruned_t t)) (ids_t t)) /\
+  (forall f, Permutation (ids_f (prune_f f) ++ ids_f (pruned_f f)) (ids_f f)).
+Proof.
+  apply tree_forest_ind; intros.
+  - rewrite prune_t_T. cbn [ids_t pruned_t app]. now apply perm_skip.
+  - apply Permutation_refl.
+  - rewrite prune_f_F1, pruned_f_F1, ids_fapp, (ids_f_F1 t f).
+    apply (Permutation_count_occ N.eq_dec). intros y.
+    pose proof (proj1 (Permutation_count_occ N.eq_dec _ _) H y) as E1.
+    pose proof (proj1 (Permutation_count_occ N.eq_dec _ _) H0 y) as E2.
+    rewrite count_occ_app in E1, E2.
+    destruct (tree_empty_all (prune_t t)); rewrite ?ids_f_F1, !count_occ_app; unfold id in *; lia.
+Qed.
+Definition prune_perm_t := proj1 prune_perm_m.
+Definition prune_perm_f := proj2 prune_perm_m.
+
+Lemma pruned_incl_t t : incl (ids_f (pruned_t t)) (ids_t t).
+Proof.
+  intros y Hy. eapply Permutation_in; [apply prune_perm_t|]. apply in_or_app. now right.
+Qed.
+
+Lemma pruned_incl_f f : incl (ids_f (pruned_f f)) (ids_f f).
+Proof.
+  intros y Hy. eapply Permutation_in; [apply prune_perm_f|]. apply in_or_app. now right.
+Qed.
+
+Lemma prune_split_nodup t : NoDup (ids_t t) -> NoDup (ids_t (prune_t t) ++ ids_f (pruned_t t)).
+Proof.
+  intros H. eapply Permutation_NoDup; [apply Permutation_sym; apply prune_perm_t|exact H].
+Qed.
+
+Lemma cell_t_par t par par' i : i <> rid t -> cell_t par t i = cell_t par' t i.
+Proof.
+  destruct t as [j d k]. cbn. intros H.
+  destruct (N.eqb j i) eqn:E; [apply N.eqb_eq in E; congruence|reflexivity].
+Qed.
+
 (* ------------------------------------------------------------------ *)
 (* the two loops of Element.prune                                      *)
 (* ------------------------------------------------------------------ *)
@@ -123,7 +190,7 @@ Definition step1 (f : nat) (st : store * list id) (c : id) : store * list id :=
   (s', if cell_empty_all s' c then snd st ++ [c] else snd st).
 Definition step2 (x : id) (s' : store) (p : id) : store :=
   match index_of p (kids_of s' x) with
-  | Some k => upd_kids s' x (remove_nth k)
+  | Some k => set_parent (upd_kids s' x (remove_nth k)) p None
   | None => s'
   end.
 
@@ -133,42 +200,70 @@ Lemma m_prune_S f s x :
             (fst (fold_left (step1 f) (kids_of s x) (s, []))).
 Proof. reflexivity. Qed.
 
-Lemma step2_spec x s cx p : get s x = Some cx ->
+Definition clr (c : cell) : cell := w_parent c None.
+
+Lemma step2_spec x s cx p : get s x = Some cx -> In p (c_kids cx) -> p <> x ->
   get (step2 x s p) x = Some (w_kids cx (del1 (c_kids cx) p)) /\
-  (forall j, j <> x -> get (step2 x s p) j = get s j) /\
+  (forall j, j <> x ->
+     get (step2 x s p) j = if N.eqb p j then option_map clr (get s j) else get s j) /\
   s_next (step2 x s p) = s_next s.
 Proof.
-  intros H. assert (Hk : kids_of s x = c_kids cx) by (unfold kids_of; now rewrite H).
-  unfold step2, del1. rewrite Hk. destruct (index_of p (c_kids cx)).
-  - split; [|split].
-    + rewrite get_upd_kids, N.eqb_refl, H. reflexivity.
-    + intros j Hj. rewrite get_upd_kids.
-      assert (E : N.eqb x j = false) by (apply N.eqb_neq; congruence). now rewrite E.
-    + apply next_upd_kids.
-  - split; [|split; [reflexivity|reflexivity]]. rewrite H. destruct cx; reflexivity.
+  intros H Hin Hpx. assert (Hk : kids_of s x = c_kids cx) by (unfold kids_of; now rewrite H).
+  unfold step2, del1. rewrite Hk. destruct (index_of_In _ _ Hin) as [k Ek]. rewrite Ek.
+  assert (Epx : N.eqb p x = false) by (now apply N.eqb_neq).
+  split; [|split].
+  - rewrite get_set_parent, Epx, get_upd_kids, N.eqb_refl, H. reflexivity.
+  - intros j Hj. rewrite get_set_parent.
+    assert (E : N.eqb x j = false) by (apply N.eqb_neq; congruence).
+    destruct (N.eqb p j) eqn:Epj.
+    + apply N.eqb_eq in Epj. subst j. rewrite get_upd_kids, E. reflexivity.
+    + rewrite get_upd_kids, E. reflexivity.
+  - rewrite next_set_parent. apply next_upd_kids.
 Qed.
 
 Lemma fold2_store x dl : forall s cx, get s x = Some cx ->
+  NoDup (c_kids cx) -> NoDup dl -> incl dl (c_kids cx) -> ~ In x dl ->
   get (fold_left (step2 x) dl s) x = Some (w_kids cx (fold_left del1 dl (c_kids cx))) /\
-  (forall j, j <> x -> get (fold_left (step2 x) dl s) j = get s j) /\
+  (forall j, j <> x ->
+     get (fold_left (step2 x) dl s) j = if mem j dl then option_map clr (get s j) else get s j) /\
   s_next (fold_left (step2 x) dl s) = s_next s.
 Proof.
-  induction dl as [|p dl IH]; intros s cx H; cbn [fold_left].
+  induction dl as [|p dl IH]; intros s cx H Hndk Hnd Hincl Hx; cbn [fold_left].
   - split; [|split; reflexivity]. rewrite H. destruct cx; reflexivity.
-  - destruct (step2_spec x s cx p H) as [A [B C]].
-    destruct (IH _ _ A) as [A' [B' C']]. split; [|split].
+  - inversion Hnd as [|? ? Hp Hnd']; subst.
+    assert (Hpin : In p (c_kids cx)) by (apply Hincl; now left).
+    assert (Hpx : p <> x) by (intros ->; apply Hx; now left).
+    destruct (step2_spec x s cx p H Hpin Hpx) as [A [B C]].
+    assert (Hndk' : NoDup (c_kids (w_kids cx (del1 (c_kids cx) p)))).
+    { cbn [w_kids c_kids]. rewrite del1_filter by assumption. now apply NoDup_filter. }
+    assert (Hincl' : incl dl (c_kids (w_kids cx (del1 (c_kids cx) p)))).
+    { cbn [w_kids c_kids]. rewrite del1_filter by assumption. intros y Hy.
+      apply filter_In. split; [apply Hincl; now right|].
+      unfold neqb. apply negb_true_iff. apply N.eqb_neq. intros ->. contradiction. }
+    assert (Hx' : ~ In x dl) by (intros Hi; apply Hx; now right).
+    destruct (IH _ _ A Hndk' Hnd' Hincl' Hx') as [A' [B' C']]. split; [|split].
     + rewrite A'. reflexivity.
-    + intros j Hj. rewrite B' by assumption. now apply B.
+    + intros j Hj. rewrite B' by assumption. rewrite (B j Hj).
+      unfold mem. cbn [existsb]. fold (mem j dl). rewrite (N.eqb_sym j p).
+      destruct (N.eqb p j) eqn:Epj; cbn [orb]; [|reflexivity].
+      apply N.eqb_eq in Epj. subst j.
+      assert (Em : mem p dl = false) by (now apply mem_false). now rewrite Em.
     + now rewrite C'.
 Qed.
 
 (* ------------------------------------------------------------------ *)
-(* local part: the heap below x follows prune_t                        *)
+(* local part: the heap below x follows prune_t, and what goes         *)
+(* becomes a root                                                      *)
 (* ------------------------------------------------------------------ *)
 Definition rep (s : store) (par : option id) (t : tree) : Prop :=
   forall i, In i (ids_t t) -> get s i = cell_t par t i.
 Definition repf (s : store) (par : option id) (f : forest) : Prop :=
   forall i, In i (ids_f f) -> get s i = cell_f par f i.
+(* between the two loops: the children that go still have their parent link *)
+Definition midf (s : store) (k : forest) : Prop :=
+  forall y, In y (ids_f (pruned_f k)) ->
+    cell_f None (pruned_f k) y =
+    if mem y (dropped k) then option_map clr (get s y) else get s y.
 
 Lemma rep_empty s par t c : rep s par t -> c = rid t ->
   cell_empty_all s c = tree_empty_all t.
@@ -177,13 +272,21 @@ Proof.
   destruct t as [i d k]. cbn. rewrite N.eqb_refl. cbn. now rewrite flen_roots.
 Qed.
 
+Lemma mem_cons_neq y a l : y <> a -> mem y (a :: l) = mem y l.
+Proof.
+  intros H. unfold mem. cbn [existsb].
+  assert (E : N.eqb y a = false) by (now apply N.eqb_neq). now rewrite E.
+Qed.
+
 Lemma prune_local :
   (forall t par s fuel, NoDup (ids_t t) -> rep s par t -> (length (ids_t t) <= fuel)%nat ->
      rep (m_prune fuel s (rid t)) par (prune_t t) /\
+     repf (m_prune fuel s (rid t)) None (pruned_t t) /\
      (forall i, ~ In i (ids_t t) -> get (m_prune fuel s (rid t)) i = get s i) /\
      s_next (m_prune fuel s (rid t)) = s_next s) /\
   (forall k j s f acc, NoDup (ids_f k) -> repf s (Some j) k -> (length (ids_f k) <= f)%nat ->
      repf (fst (fold_left (step1 f) (roots k) (s, acc))) (Some j) (prune_f k) /\
+     midf (fst (fold_left (step1 f) (roots k) (s, acc))) k /\
      (forall i, ~ In i (ids_f k) -> get (fst (fold_left (step1 f) (roots k) (s, acc))) i = get s i) /\
      s_next (fst (fold_left (step1 f) (roots k) (s, acc))) = s_next s /\
      snd (fold_left (step1 f) (roots k) (s, acc)) = acc ++ dropped k).
@@ -199,25 +302,39 @@ Proof.
     { intros y Hy. rewrite (Hrep y) by (right; exact Hy). cbn.
       destruct (N.eqb i y) eqn:E; [apply N.eqb_eq in E; subst; contradiction|reflexivity]. }
     assert (Hlen' : (length (ids_f k) <= f)%nat) by lia.
-    destruct (IH i s f [] Hndk Hrepf Hlen') as [A [B [C D]]].
+    destruct (IH i s f [] Hndk Hrepf Hlen') as [A [Q [B [C D]]]].
     rewrite Hk. rewrite D. cbn [app].
     assert (Hj1 : get (fst (fold_left (step1 f) (roots k) (s, []))) i = Some (mkC par (roots k) d)).
     { rewrite B; assumption. }
-    destruct (fold2_store i (dropped k) _ _ Hj1) as [E1 [E2 E3]].
-    cbn [c_kids] in E1.
     assert (Hndr : NoDup (roots k)) by (now apply roots_NoDup).
+    assert (Hdin : forall y, In y (dropped k) -> In y (ids_f k)).
+    { intros y Hy. apply roots_incl. now apply dropped_incl. }
+    assert (Hid : ~ In i (dropped k)) by (intros Hi; apply Hni; now apply Hdin).
+    destruct (fold2_store i (dropped k) _ _ Hj1 Hndr (dropped_nodup k Hndr) (dropped_incl k) Hid)
+      as [E1 [E2 E3]].
+    cbn [c_kids] in E1.
     rewrite (del_all_filter _ _ Hndr) in E1. rewrite <- (roots_prune _ Hndr) in E1.
-    split; [|split].
+    split; [|split; [|split]].
     + intros y Hy. rewrite prune_t_T in *. cbn [ids_t] in Hy. destruct Hy as [<-|Hy].
       * rewrite E1. cbn. now rewrite N.eqb_refl.
       * assert (Hyi : y <> i) by (intros ->; apply Hni; now apply prune_incl_f).
-        rewrite E2 by assumption. rewrite (A y Hy). cbn.
+        rewrite E2 by assumption.
+        assert (Em : mem y (dropped k) = false).
+        { apply mem_false. intros Hd. exact (dropped_not_kept k Hndk y Hd Hy). }
+        rewrite Em. rewrite (A y Hy). cbn.
         destruct (N.eqb i y) eqn:E; [apply N.eqb_eq in E; congruence|reflexivity].
-    + intros y Hy. cbn [ids_t] in Hy. rewrite E2 by (intros ->; apply Hy; now left).
-      apply B. intros Hy'. apply Hy. now right.
+    + intros y Hy. cbn [pruned_t] in *.
+      assert (Hyi : y <> i) by (intros ->; apply Hni; now apply pruned_incl_f).
+      rewrite E2 by assumption. symmetry. now apply Q.
+    + intros y Hy. cbn [ids_t] in Hy.
+      assert (Hyi : y <> i) by (intros ->; apply Hy; now left).
+      rewrite E2 by assumption.
+      assert (Em : mem y (dropped k) = false).
+      { apply mem_false. intros Hd. apply Hy. right. now apply Hdin. }
+      rewrite Em. apply B. intros Hy'. apply Hy. now right.
     + rewrite E3. exact C.
-  - intros j s f acc _ _ _. cbn. split; [intros y []|]. split; [reflexivity|].
-    split; [reflexivity|]. now rewrite app_nil_r.
+  - intros j s f acc _ _ _. cbn. split; [intros y []|]. split; [intros y []|].
+    split; [reflexivity|]. split; [reflexivity|]. now rewrite app_nil_r.
   - intros t IHt k' IHk j s f acc Hnd Hrep Hlen. cbn [roots fold_left].
     cbn [ids_f] in Hnd, Hlen. apply nodup_app in Hnd. destruct Hnd as [Ha [Hb Hc]].
     rewrite app_length in Hlen.
@@ -228,7 +345,7 @@ Proof.
     { intros y Hy. rewrite Hrep by (cbn [ids_f]; apply in_or_app; now left). cbn [cell_f].
       destruct (cell_t_some t (Some j) y Hy) as [c Hcc]. now rewrite Hcc. }
     assert (Hl1 : (length (ids_t t) <= f)%nat) by lia.
-    destruct (IHt (Some j) s f Ha Hrt Hl1) as [A [B C]].
+    destruct (IHt (Some j) s f Ha Hrt Hl1) as [A [P [B C]]].
     rewrite (rep_empty _ (Some j) (prune_t t) (rid t) A (eq_sym (prune_rid t))).
     assert (Hrk : repf (m_prune f s (rid t)) (Some j) k').
     { intros y Hy. rewrite B by (intros Hy'; eapply Hc; eassumption).
@@ -237,8 +354,8 @@ Proof.
     assert (Hl2 : (length (ids_f k') <= f)%nat) by lia.
     destruct (IHk j (m_prune f s (rid t)) f
                 (if tree_empty_all (prune_t t) then acc ++ [rid t] else acc) Hb Hrk Hl2)
-      as [A' [B' [C' D']]].
-    split; [|split; [|split]].
+      as [A' [Q' [B' [C' D']]]].
+    split; [|split; [|split; [|split]]].
     + rewrite prune_f_F1. destruct (tree_empty_all (prune_t t)) eqn:Et; [exact A'|].
       intros y Hy. cbn [ids_f] in Hy. cbn [cell_f].
       destruct (in_dec N.eq_dec y (ids_t (prune_t t))) as [Hin|Hnin].
@@ -246,6 +363,43 @@ Proof.
         rewrite (A y Hin). destruct (cell_t_some _ (Some j) y Hin) as [c Hcc]. now rewrite Hcc.
       * apply in_app_or in Hy. destruct Hy as [Hy|Hy]; [contradiction|].
         rewrite (cell_t_none _ (Some j) y Hnin). now apply A'.
+    + pose proof (prune_split_nodup t Ha) as Hsp. apply nodup_app in Hsp.
+      destruct Hsp as [_ [_ Hdisj]].
+      assert (Hdk : forall y, In y (dropped k') -> In y (ids_f k')).
+      { intros y Hy. apply roots_incl. now apply dropped_incl. }
+      intros y Hy. rewrite pruned_f_F1 in *. rewrite ids_fapp in Hy. rewrite cell_fapp.
+      cbn [dropped].
+      destruct (in_dec N.eq_dec y (ids_f (pruned_t t))) as [HyD|HyD].
+      * assert (Hyt : In y (ids_t t)) by (now apply pruned_incl_t).
+        destruct (cell_f_some _ None y HyD) as [c Hcc]. rewrite Hcc. rewrite <- Hcc.
+        rewrite <- (P y HyD). rewrite <- B' by (intros Hy'; eapply Hc; eassumption).
+        assert (Em : mem y (dropped k') = false).
+        { apply mem_false. intros Hd. eapply Hc; [exact Hyt|now apply Hdk]. }
+        destruct (tree_empty_all (prune_t t)); [|now rewrite Em].
+        rewrite mem_cons_neq, Em; [reflexivity|].
+        intros ->. eapply Hdisj; [|exact HyD]. rewrite <- prune_rid. apply rid_in.
+      * rewrite (cell_f_none _ None y HyD). apply in_app_or in Hy.
+        destruct Hy as [Hy|Hy]; [contradiction|].
+        destruct (tree_empty_all (prune_t t)) eqn:Et.
+        -- rewrite ids_f_F1 in Hy. cbn [cell_f].
+           destruct (in_dec N.eq_dec y (ids_t (prune_t t))) as [HyK|HyK].
+           ++ assert (Hyt : In y (ids_t t)) by (now apply prune_incl_t).
+              destruct (cell_t_some _ None y HyK) as [c Hcc]. rewrite Hcc. rewrite <- Hcc.
+              rewrite B' by (intros Hy'; eapply Hc; eassumption).
+              rewrite (A y HyK).
+              destruct (N.eq_dec y (rid t)) as [->|Hne].
+              ** assert (Em : mem (rid t) (rid t :: dropped k') = true) by (apply mem_In; now left).
+                 rewrite Em. destruct t as [i d k]. cbn. rewrite N.eqb_refl. reflexivity.
+              ** assert (Em : mem y (dropped k') = false).
+                 { apply mem_false. intros Hd. eapply Hc; [exact Hyt|now apply Hdk]. }
+                 rewrite mem_cons_neq, Em by assumption.
+                 apply cell_t_par. now rewrite prune_rid.
+           ++ rewrite (cell_t_none _ None y HyK).
+              apply in_app_or in Hy. destruct Hy as [Hy|Hy]; [contradiction|].
+              assert (Hyk : In y (ids_f k')) by (now apply pruned_incl_f).
+              rewrite mem_cons_neq; [now apply Q'|].
+              intros ->. eapply Hc; [apply rid_in|exact Hyk].
+        -- now apply Q'.
     + intros y Hy. cbn [ids_f] in Hy. rewrite B', B; [reflexivity| |];
         intros Hy'; apply Hy; apply in_or_app; auto.
     + rewrite C'. exact C.
@@ -375,12 +529,12 @@ End Sub.
 (* ------------------------------------------------------------------ *)
 (* Element.prune refines the reference                                 *)
 (* ------------------------------------------------------------------ *)
-Lemma prune_refines : forall s rs x, R s rs -> In x (ids_f (r_forest rs)) ->
-  R (m_prune (fuel_of s) s x) (mkR (sub_f (r_forest rs) x prune_t) (r_next rs)).
+Lemma prune_refines : forall s rs x tx, R s rs -> find_f (r_forest rs) x = Some tx ->
+  R (m_prune (fuel_of s) s x)
+    (mkR (fapp (pruned_t tx) (sub_f (r_forest rs) x prune_t)) (r_next rs)).
 Proof.
-  intros s rs x [Hnd [Hcells [Hlt [Hnext Hlen]]]] Hx.
+  intros s rs x tx [Hnd [Hcells [Hlt [Hnext Hlen]]]] Hf.
   set (f := r_forest rs) in *.
-  destruct (find_some f x Hx) as [tx Hf].
   assert (Hrid : rid tx = x) by (eapply find_rid; eassumption).
   destruct (find_cell f None x tx Hnd Hf) as [px Hpx].
   assert (Hsub : incl (ids_t tx) (ids_f f)) by (eapply find_ids_incl; eassumption).
@@ -393,20 +547,38 @@ Proof.
     - destruct (cell_f None f i); reflexivity. }
   assert (Hfuel : (length (ids_t tx) <= fuel_of s)%nat).
   { pose proof (NoDup_incl_length Hndx Hsub). unfold fuel_of. rewrite Hnext. lia. }
-  destruct (proj1 prune_local tx px s (fuel_of s) Hndx Hrep Hfuel) as [A [B C]].
-  rewrite Hrid in A, B, C.
+  destruct (proj1 prune_local tx px s (fuel_of s) Hndx Hrep Hfuel) as [A [P [B C]]].
+  rewrite Hrid in A, P, B, C.
   assert (Hincl : incl (ids_f (sub_f f x prune_t)) (ids_f f)).
   { apply (proj2 (sub_incl_m prune_t prune_incl_t x)). }
   assert (Hnd' : NoDup (ids_f (sub_f f x prune_t))).
   { apply (proj2 (sub_nodup_m prune_t prune_incl_t prune_nodup_t x)). exact Hnd. }
-  unfold R. cbn [r_forest r_next]. split; [exact Hnd'|]. split; [|split; [|split]].
-  - intros i Hi.
-    pose proof (sub_cell prune_t prune_rid prune_incl_t f None x tx i px _ _ Hnd Hf Hpx) as Hc.
-    rewrite Hc. destruct (mem i (ids_t tx)) eqn:Em.
-    + apply A. destruct (cell_f_some _ None i Hi) as [c Hcc]. rewrite Hc in Hcc.
-      eapply cell_t_in; eassumption.
-    + apply mem_false in Em. rewrite (B i Em). apply Hcells. now apply Hincl.
-  - intros i Hi. apply Hlt. now apply Hincl.
+  pose proof (prune_split_nodup tx Hndx) as Hsp. apply nodup_app in Hsp.
+  destruct Hsp as [_ [HndD Hdisj]].
+  assert (Hcell : forall i, cell_f None (sub_f f x prune_t) i =
+            if mem i (ids_t tx) then cell_t px (prune_t tx) i else cell_f None f i).
+  { intros i. exact (sub_cell prune_t prune_rid prune_incl_t f None x tx i px _ _ Hnd Hf Hpx). }
+  assert (HinclD : incl (ids_f (pruned_t tx)) (ids_f f)).
+  { intros y Hy. apply Hsub. now apply pruned_incl_t. }
+  assert (Hincl2 : incl (ids_f (fapp (pruned_t tx) (sub_f f x prune_t))) (ids_f f)).
+  { rewrite ids_fapp. intros y Hy. apply in_app_or in Hy. destruct Hy; auto. }
+  assert (Hnd2 : NoDup (ids_f (fapp (pruned_t tx) (sub_f f x prune_t)))).
+  { rewrite ids_fapp. apply nodup_app. split; [exact HndD|]. split; [exact Hnd'|].
+    intros y HyD HyS. apply (Hdisj y); [|exact HyD].
+    destruct (cell_f_some _ None y HyS) as [c Hcc]. rewrite Hcell in Hcc.
+    assert (Em : mem y (ids_t tx) = true) by (apply mem_In; now apply pruned_incl_t).
+    rewrite Em in Hcc. eapply cell_t_in; eassumption. }
+  unfold R. cbn [r_forest r_next]. split; [exact Hnd2|]. split; [|split; [|split]].
+  - intros i Hi. rewrite cell_fapp.
+    destruct (in_dec N.eq_dec i (ids_f (pruned_t tx))) as [HiD|HiD].
+    + rewrite (P i HiD). destruct (cell_f_some _ None i HiD) as [c Hcc]. now rewrite Hcc.
+    + rewrite (cell_f_none _ None i HiD). rewrite ids_fapp in Hi. apply in_app_or in Hi.
+      destruct Hi as [Hi|Hi]; [contradiction|].
+      rewrite Hcell. destruct (mem i (ids_t tx)) eqn:Em.
+      * apply A. destruct (cell_f_some _ None i Hi) as [c Hcc]. rewrite Hcell, Em in Hcc.
+        eapply cell_t_in; eassumption.
+      * apply mem_false in Em. rewrite (B i Em). apply Hcells. now apply Hincl.
+  - intros i Hi. apply Hlt. now apply Hincl2.
   - rewrite C. exact Hnext.
-  - pose proof (NoDup_incl_length Hnd' Hincl). lia.
+  - pose proof (NoDup_incl_length Hnd2 Hincl2). lia.
 Qed.
